@@ -131,6 +131,17 @@ pub fn check_lookups(v: &Value, r: &RV) -> Result<(), String> {
         }
         (Value::Object(o), RV::Obj(e)) => {
             let mut keys: Vec<&str> = e.iter().map(|(k, _)| k.as_str()).collect();
+            keys.sort();
+            keys.dedup();
+            if keys.len() > 96 {
+                // a pumped object: every 1/64th key plus the extremes (each lookup is still
+                // compared with a full linear scan)
+                let step = keys.len() / 64;
+                let mut sampled: Vec<&str> = keys.iter().step_by(step).copied().collect();
+                sampled.push(keys[keys.len() - 1]);
+                sampled.push(keys[1]);
+                keys = sampled;
+            }
             keys.push("\u{1}absent-key");
             for k in keys {
                 let pos: Vec<usize> = e.iter().enumerate().filter(|(_, (k2, _))| k2 == k).map(|(i, _)| i).collect();
@@ -966,6 +977,101 @@ pub fn duplicate_key_family(rep: &mut Report, mode: Mode, tier: Tier) {
     });
     rep.bounds["duplicate-key-family"] = json!({"values": count, "max_nodes": n, "keys": keys, "spelling": "every second key occurrence escaped as \\u00XX"});
     rep.absorb(t);
+}
+
+/// Pumped linear families (refmodel::pump): strings, keys, numbers, arrays, objects with
+/// distinct / duplicated keys pushed through the size thresholds (16, 2^k +- 1 up to 65 537),
+/// compact and pretty renderings, plus long whitespace runs and damaged variants.
+pub fn pump_family(rep: &mut Report, mode: Mode, tier: Tier) {
+    let all = refmodel::pump::all(tier == Tier::Thorough);
+    let count = all.len();
+    let t = explore::par_tally(all, |(fam, n, v), t| {
+        let compact = refmodel::print::compact(&v);
+        let texts = if compact.len() < 300_000 { vec![compact.clone(), refmodel::print::print(&v, &refmodel::print::Opts::pretty())] } else { vec![compact.clone()] };
+        for text in &texts {
+            match mode {
+                Mode::C02 | Mode::C05 => x_case_struct(text, mode, t),
+                Mode::C01 | Mode::C07 | Mode::C03 => {
+                    // the intact document, the document cut one byte short, and with one byte appended
+                    let mut variants: Vec<String> = vec![text.clone()];
+                    let mut cut = text.clone();
+                    cut.pop();
+                    variants.push(cut);
+                    variants.push(format!("{text}]"));
+                    variants.push(format!("{text} \n"));
+                    for d in variants {
+                        let exp = expect_text(&d, (false, false));
+                        for (name, o) in [("parse_str", str_entry(&d, STRICT)), ("parse_slice", slice_entry_default(d.as_bytes()))] {
+                            t.evals += 1;
+                            let r = match mode {
+                                Mode::C07 => {
+                                    if exp == Expect::Accept {
+                                        Ok(())
+                                    } else {
+                                        check(&o, &exp, d.as_bytes())
+                                    }
+                                }
+                                Mode::C03 => match &o {
+                                    Out::Broken(w) => Err(format!("did not return: {w}")),
+                                    _ => Ok(()),
+                                },
+                                _ => {
+                                    if matches!(o, Out::Ok(..)) == (exp == Expect::Accept) && !matches!(o, Out::Broken(_)) {
+                                        Ok(())
+                                    } else {
+                                        Err(format!("verdict differs: expected {exp:?}, observed {}", o.class()))
+                                    }
+                                }
+                            };
+                            if let Err(e) = r {
+                                let shown: String = d.chars().take(60).collect();
+                                t.violation("", format!("{name} on pumped {fam:?}({n}): {e}"), json!({"kind": "pump-doc", "family": format!("{fam:?}"), "n": n, "starts": shown, "len": d.len()}));
+                            }
+                        }
+                    }
+                }
+                _ => {}
+            }
+        }
+        t.nontrivial(&(format!("{fam:?}"), n));
+        t.outcome(&format!("pumped:{fam:?}"));
+    });
+    // long whitespace runs at every token boundary of a small document
+    let mut t2 = Tally::new();
+    let toks = ["[", "1", ",", "{", "\"a\"", ":", "\"b\"", "}", "]"];
+    for n in refmodel::pump::thresholds(if tier == Tier::Thorough { 65537 } else { 4097 }) {
+        if n < 2 {
+            continue;
+        }
+        for pos in 0..=toks.len() {
+            for ws in [" ", "\n", "\t", "\r"] {
+                let mut text = String::new();
+                for (i, tk) in toks.iter().enumerate() {
+                    if i == pos {
+                        text.push_str(&ws.repeat(n));
+                    }
+                    text.push_str(tk);
+                }
+                if pos == toks.len() {
+                    text.push_str(&ws.repeat(n));
+                }
+                match mode {
+                    Mode::C02 | Mode::C05 => x_case_struct(&text, mode, &mut t2),
+                    _ => {
+                        let exp = expect_text(&text, (false, false));
+                        let o = slice_entry_default(text.as_bytes());
+                        t2.evals += 1;
+                        if matches!(o, Out::Ok(..)) != (exp == Expect::Accept) {
+                            t2.violation("", format!("whitespace run of {n} x {ws:?} at boundary {pos}: verdict differs"), json!({"kind": "pump-ws", "n": n, "pos": pos}));
+                        }
+                    }
+                }
+            }
+        }
+    }
+    rep.bounds["pumped-families"] = json!({"values": count, "families": refmodel::pump::FAMILIES.iter().map(|f| format!("{f:?}")).collect::<Vec<_>>(), "thresholds": "0..=40 and 2^k +- 1 up to the family's cap (65 537 for strings / arrays in the thorough tier)", "renderings": ["compact", "pretty"], "whitespace_runs": "every threshold >= 2 at each of 10 token boundaries x 4 whitespace characters"});
+    rep.absorb(t);
+    rep.absorb(t2);
 }
 
 /// Whitespace variants between any two tokens (C05): documents from a small token grammar
